@@ -87,6 +87,7 @@ type Stats struct {
 	Concretized     int
 	ExcludedByKnown int
 	ByTruthTable    int
+	BadModels       int // sat answers whose model did not validate in the evaluator (treated as unknown)
 }
 
 type decision struct {
@@ -948,6 +949,16 @@ func (m *Machine) obligation(kind, msg, where string, bad *term.Term) bool {
 				}
 			}
 			model = mod.Eval
+			// a counter-model is only believed if it satisfies the query in the evaluator (a back end
+			// that fails to return values, or mis-models an operator, must not produce a finding)
+			okModel := mod.Eval(bad) != 0
+			for _, c := range m.pc {
+				okModel = okModel && mod.Eval(c) != 0
+			}
+			if !okModel {
+				m.Stats.BadModels++
+				r, model = solver.Unknown, nil
+			}
 		}
 	}
 	if r == solver.Unknown {
